@@ -70,7 +70,7 @@ impl<E: Endianness, BW: BitWrite<E>, const PRINT: bool> BitWrite<E>
 
     fn flush(&mut self) -> Result<usize, Self::Error> {
         self.bit_write.flush().inspect(|x| {
-            self.bits_written += *x;
+            // the flushed bits were already counted when they were written
             if PRINT {
                 eprintln!("flush() = {} (total = {})", x, self.bits_written);
             }
@@ -215,6 +215,7 @@ impl<E: Endianness, BR: BitRead<E>, const PRINT: bool> BitRead<E> for CountBitRe
     }
 
     fn skip_bits_after_peek(&mut self, n: usize) {
+        self.bits_read += n;
         self.bit_read.skip_bits_after_peek(n)
     }
 }
